@@ -1,0 +1,65 @@
+//go:build verif
+
+// Verification hook (build tag "verif") for property C12: a read-only view of the registries' internal
+// bookkeeping (order slices and key sets), taken under each registry's own read lock.
+// Nothing here is compiled into a normal build.
+
+package mcp
+
+import "sort"
+
+// VerifRegistrySnapshot is one registry: the order slice as it is (nil where the type keeps none) and the
+// sorted keys of the map.
+type VerifRegistrySnapshot struct {
+	Order []string
+	Keys  []string
+}
+
+// VerifRegistryState returns the bookkeeping of one registry of s: "tool", "prompt", "resource", "template", "notif".
+func VerifRegistryState(s *Server, kind string) VerifRegistrySnapshot {
+	var snap VerifRegistrySnapshot
+	switch kind {
+	case "tool":
+		m := s.toolManager
+		m.mu.RLock()
+		snap.Order = append([]string{}, m.toolsOrder...)
+		for k := range m.tools {
+			snap.Keys = append(snap.Keys, k)
+		}
+		m.mu.RUnlock()
+	case "prompt":
+		m := s.promptManager
+		m.mu.RLock()
+		snap.Order = append([]string{}, m.promptsOrder...)
+		for k := range m.prompts {
+			snap.Keys = append(snap.Keys, k)
+		}
+		m.mu.RUnlock()
+	case "resource":
+		m := s.resourceManager
+		m.mu.RLock()
+		snap.Order = append([]string{}, m.resourcesOrder...)
+		for k := range m.resources {
+			snap.Keys = append(snap.Keys, k)
+		}
+		m.mu.RUnlock()
+	case "template":
+		m := s.resourceManager
+		m.mu.RLock()
+		for k := range m.templates {
+			snap.Keys = append(snap.Keys, k)
+		}
+		m.mu.RUnlock()
+	case "notif":
+		s.notificationMu.RLock()
+		for k := range s.notificationHandlers {
+			snap.Keys = append(snap.Keys, k)
+		}
+		s.notificationMu.RUnlock()
+	}
+	sort.Strings(snap.Keys)
+	if snap.Keys == nil {
+		snap.Keys = []string{}
+	}
+	return snap
+}
